@@ -163,6 +163,8 @@ def run(chk, tier, scale=1.0):
                          leaks=True, shrink=False, want_sample=(i < 2)))
     res = vcommon.pmap(prun.hist_worker, jobs)
     prun.fold(chk, "C10", res, crash_is_violation=True)
+    for rs in vcommon.pmap(pcommon.script_worker, pcommon.collision_jobs(b, chk.seed, PROPS, int((120 if tier == "quick" else 3000) * scale))):
+        prun.fold(chk, "C10", rs, crash_is_violation=True)
     longs = [dict(build=b, seed=chk.seed * 77 + k, n=int((200000 if tier == "quick" else 2000000) * scale) // (1 if k == 0 else 4),
                   nconc=(500 if tier == "quick" else 5000) // (1 if k == 0 else 10)) for k in range(1 if tier == "quick" else 4)]
     timers = [dict(build=b, seed=chk.seed * 99 + k, rounds=2) for k in range(4 if tier == "quick" else 64)]
